@@ -1,24 +1,26 @@
-import RV.C01.Model
+import RV.C01.NModel
 import RV.C02.Model
 /-
-  C02, round g — the Dataset / ConjunctiveGraph layer of `rdflib/graph.py` run over C01's
-  CONCRETE model of `rdflib/plugins/stores/memory.py` (`RV.C01.Mem`: the three indexes
-  `spo`/`pos`/`osp`, `__tripleContexts` with the default-context compression,
+  C02, rounds g/h — the Dataset / ConjunctiveGraph layer of `rdflib/graph.py` run over C01's
+  CONCRETE model of `rdflib/plugins/stores/memory.py`, since round h the NESTED-dictionary model
+  `RV.C01.NMem` (`NModel.lean`: the three indexes `spo[s][p][o]` / `pos[p][o][s]` / `osp[o][s][p]` as
+  three-level insertion-ordered dictionaries with the `try/except` insertion ladder, leaf-only `del`
+  and the level-by-level walks of `triples()`; `__tripleContexts` with the default-context compression,
   `__contextTriples`, `__all_contexts`, sticky `err` flag for every Python operation that can
   raise), instead of the abstract set of quads of `RV.C02.Mem`.
 
   Every function below is the function of the same name in `RV.C02.Model`, with each store
   call replaced by the call the code really makes on `Memory`:
 
-    store.add((s,p,o), context=c)          → `C01.Mem.add`
-    store.remove(pattern, context=c|None)  → `C01.Mem.remove`   (lazy generator walk, per-triple context loop)
-    store.triples(pattern, context=c|None) → `C01.Mem.triplesC` (8-shape index dispatch, has-context test,
+    store.add((s,p,o), context=c)          → `C01.NMem.add`
+    store.remove(pattern, context=c|None)  → `C01.NMem.remove`   (lazy generator walk, per-triple context loop)
+    store.triples(pattern, context=c|None) → `C01.NMem.triplesC` (8-shape index dispatch, has-context test,
                                               each triple with `__contexts(triple)`)
     store.triples_choices                  → `Store.triples_choices`: one `triples` per list element
-    store.contexts() / contexts(triple)    → `C01.Mem.contexts`
-    store.__len__(context)                 → `C01.Mem.len`
-    store.add_graph / remove_graph         → `C01.Mem.addGraph` / `removeGraph`
-    _graph.__iadd__(foreign graph)         → `C01.Mem.iadd` (`Graph.__iadd__` → `Graph.addN` with its
+    store.contexts() / contexts(triple)    → `C01.NMem.contexts`
+    store.__len__(context)                 → `C01.NMem.len`
+    store.add_graph / remove_graph         → `C01.NMem.addGraph` / `removeGraph`
+    _graph.__iadd__(foreign graph)         → `C01.NMem.iadd` (`Graph.__iadd__` → `Graph.addN` with its
                                               identifier filter → `Store.addN` → `Memory.add`)
 
   and, where the abstract model used an idempotent shortcut, the branch structure of the code:
@@ -31,7 +33,7 @@ import RV.C02.Model
 namespace RV.C02.Conc
 open RV RV.C02
 
-abbrev CMem := RV.C01.Mem
+abbrev CMem := RV.C01.NMem
 
 /-- `store.contexts()` -/
 def storeContexts (m : CMem) : List Key := m.contexts (none, none, none)
@@ -132,6 +134,12 @@ def dsGraphFresh (cfg : Cfg) (m : CMem) (k : Key) : CMem := dsGraph cfg m (.iden
 def dsRemoveGraph (cfg : Cfg) (m : CMem) (k : Key) : CMem :=
   let m1 := m.removeGraph k
   if k = cfg.dflt then m1.addGraph cfg.dflt else m1
+
+/-- `Dataset.remove_graph(None)`: `g = self.get_context(None)` is `Graph(store, identifier=None)`, a graph under a
+    brand-new blank-node name `k` (harness-owned key, fresh by assumption as for `graph(None)`); then exactly the code of
+    `remove_graph(k)`: `store.remove_graph(g)` (the `KeyError` of `__all_contexts.remove` swallowed), and — `g` being a
+    `Graph` now, not `None`, and not the default graph — no re-registration.  (`None` does NOT denote the default graph.) -/
+def dsRemoveGraphNone (cfg : Cfg) (m : CMem) (k : Key) : CMem := dsRemoveGraph cfg m k
 
 /-- `ConjunctiveGraph.remove_context(g)` -/
 def cgRemoveContext (m : CMem) (k : Key) : CMem := m.remove (none, none, none) (some k)
